@@ -11,14 +11,14 @@ Close Scope N_scope.
 Open Scope nat_scope.
 
 Notation rsl := (sl token).
-Notation rwf_l := (wf_l token tok_class op_level true).
+Notation rwf_l := (wf_l token tok_class t_text tok_num op_level true).
 Notation rabsorbs := (absorbs token).
 Notation rflat_l := (flat_l token).
 Notation rerase_l := (erase_l token t_text tok_num).
 Notation rsize_l := (size_l token).
 Notation rtriv := (all_triv token tok_class).
 Notation rsx := (StExprProofs.sp token).
-Notation rwf := (StExprProofs.wf token tok_class op_level).
+Notation rwf := (StExprProofs.wf token tok_class t_text tok_num op_level).
 Notation rflat := (StExprProofs.flat token).
 Notation rerase := (StExprProofs.erase token t_text tok_num).
 
@@ -36,15 +36,17 @@ Theorem plist_real : forall (l : rsl) rest L,
 Proof. apply plist_spelled. Qed.
 
 (* ---- the wrapper ---- *)
-Lemma class_by_kind t : kind_class (t_kind t) <> CConst CkInt -> tok_class t = kind_class (t_kind t).
-Proof. unfold tok_class. destruct (kind_class (t_kind t)) as [| |k| | | | | | | | | | | |o| | |k| | | |dk| |]; try reflexivity. destruct k; try reflexivity. intro H. contradiction H. reflexivity. Qed.
+Definition checked_const (c : tcl) : bool :=
+  match c with CConst CkInt | CConst CkHex | CConst CkOct | CConst CkBin | CConst CkFixed | CConst CkFloat => true | _ => false end.
+Lemma class_by_kind t : checked_const (kind_class (t_kind t)) = false -> tok_class t = kind_class (t_kind t).
+Proof. unfold tok_class. destruct (kind_class (t_kind t)) as [| |k| | | | | | | | | | | |o| | |k| | |k|dk| |]; try reflexivity. destruct k; try reflexivity; discriminate. Qed.
 
 Lemma class_fb t : t_kind t = KFunctionBlock -> tok_class t = CKw KwEndPou.
-Proof. intro H. rewrite class_by_kind; rewrite H; [reflexivity | discriminate]. Qed.
+Proof. intro H. rewrite class_by_kind; rewrite H; reflexivity. Qed.
 Lemma class_id t : t_kind t = KIdentifier -> tok_class t = CId.
-Proof. intro H. rewrite class_by_kind; rewrite H; [reflexivity | discriminate]. Qed.
+Proof. intro H. rewrite class_by_kind; rewrite H; reflexivity. Qed.
 Lemma class_endfb t : t_kind t = KEndFunctionBlock -> tok_class t = CKw KwEndPou.
-Proof. intro H. rewrite class_by_kind; rewrite H; [reflexivity | discriminate]. Qed.
+Proof. intro H. rewrite class_by_kind; rewrite H; reflexivity. Qed.
 
 Lemma skip_all_triv w : rtriv w -> st_skip w = [].
 Proof. induction 1 as [|t w Ht _ IH]; [reflexivity|]. unfold st_skip in *. cbn. unfold is_triv. rewrite Ht. exact IH. Qed.
@@ -56,7 +58,7 @@ Theorem parse_fb_spelled : forall w00 fb w0 nm w1 (l : rsl) w2 en w3,
 Proof.
   intros w00 fb w0 nm w1 l w2 en w3 H00 Hfb H0 Hnm H1 Hl H2 Hen H3 Habs.
   pose proof (class_fb fb Hfb) as Cfb. pose proof (class_id nm Hnm) as Cnm. pose proof (class_endfb en Hen) as Cen.
-  pose proof (wf_l_in_scope token tok_class op_level l w2 en KwEndPou w3 Hl H2 Cen H3) as Hscope.
+  pose proof (wf_l_in_scope token tok_class t_text tok_num op_level l w2 en KwEndPou w3 Hl H2 Cen H3) as Hscope.
   assert (Sfb : solid token tok_class fb) by (unfold solid; rewrite Cfb; discriminate).
   assert (Snm : solid token tok_class nm) by (unfold solid; rewrite Cnm; discriminate).
   assert (Sen : solid token tok_class en) by (unfold solid; rewrite Cen; discriminate).
@@ -65,7 +67,7 @@ Proof.
   rewrite Hfb. cbn [kind_eqb tok_index N.eqb Pos.eqb]. 
   rewrite (skip_app_triv token tok_class w0 _ H0), (skip_solid token tok_class nm _ Snm).
   rewrite Hnm. cbn [kind_eqb tok_index N.eqb Pos.eqb].
-  rewrite (skip_app_triv token tok_class w1 _ H1), (flat_l_skip token tok_class op_level l _ Hl).
+  rewrite (skip_app_triv token tok_class w1 _ H1), (flat_l_skip token tok_class t_text tok_num op_level l _ Hl).
   rewrite Hscope. unfold body.
   rewrite (plist_real l (w2 ++ en :: w3)).
   - rewrite (skip_app_triv token tok_class w2 _ H2), (skip_solid token tok_class en _ Sen).
